@@ -381,4 +381,10 @@ let () = run_protocol (fun case0 impl -> with_schema case0 (fun c case ->
       let m = run_op c ("DEC s " ^ hx) in
       let oracle r = c06_ok (pairs_for c) expected (obs_of_dump r) in
       (m, oracle impl, oracle m)
+  | [("C" | "CT"); iters; lists] ->
+      (* concurrent class: the sequential model says that a thread's decode result does not depend
+         on what other threads do: 0 mismatches *)
+      let k = List.length (split_on ';' lists) in
+      let m = Printf.sprintf "OK threads=%d iters=%s mismatches=0" k iters in
+      (m, impl = m, true)
   | _ -> ("BAD-CASE", false, false)))
